@@ -326,6 +326,9 @@ func init() {
 			}
 			return &FloatV{FP: m.F.Ite(c, m.asFP(x), m.asFP(y))}
 		},
+		"verifNative": func(m *Machine, _ *frame, _ token.Pos, _ *ssa.Function, a []Value) Value {
+			return m.F.False()
+		},
 		"verifYield": func(m *Machine, _ *frame, _ token.Pos, _ *ssa.Function, a []Value) Value {
 			m.schedPoint("yield")
 			return nil
